@@ -12,6 +12,10 @@ CHECKS = {
                 technique="explicit-state model checking: TLC state graph of tla/ThreadCpu.tla (invariant: <=1 running thread per physical CPU) walked against the real emulator with local/remote affinity events and same-clock events; binding pass through the real ovniemu",
                 text="In every reachable model state every thread-state and affinity event (all CPUs incl. virtual and non-existent, all remote targets incl. other looms) is probed on the real emulator: any event whose successor would put two running threads on a physical CPU must be refused, and after every accepted event all CPU rows (nrunning, TID, PID) must equal the model's. Logical index and physical id are permuted so a confusion changes a row.",
                 note="Trusted: as C04. When an affinity event is legal is a soft guard (only oversubscription and the effect on the rows are hard)."),
+    "C08": dict(level="model_checking", engine="E3 emu_server", ref="DESIGN.md 5 (C08)",
+                technique="explicit-state search on the real emulator: state = stacks of open regions of a thread (depth <= 2), every documented event of the model probed in every state against a stack reference; golden value/label table; binding pass through the real ovniemu",
+                text="For each of the eight models every nesting of depth <= 2 of its documented enter events is reached on the real emulator and every documented argument-less event is probed there: the matching leave must be accepted, every other leave refused, every non-re-entering enter accepted, and thread and CPU rows must show the documented value of the innermost open region. Also: required thread state (6 states x in/out of CPU), lint on open regions for all enter events, a depth-512 path with the 513th push refused, and .pcf labels.",
+                note="Trusted: doc/user/emulation/events.md for the event list and pairing, golden/enter_values.json (frozen after manual review), lib/pv.py. Immediate re-entry of the innermost region may go either way. Depth bound 2 (+ one 512 path)."),
 }
 
 ORDER = ["C%02d" % i for i in range(1, 21)]
@@ -46,7 +50,7 @@ def main():
                   "baseline_off_cmd": "cmake --build /repo/_build && ctest --test-dir /repo/_build -j8 --timeout 900",
                   "source_commits": [], "add_only": True},
         "engines": [
-            {"name": "E3 emu_server", "path": "harness/emu_server.c", "serves_properties": ["C04", "C05"],
+            {"name": "E3 emu_server", "path": "harness/emu_server.c", "serves_properties": ["C04", "C05", "C08"],
              "kind_free_text": "the unmodified emulator as a fork-checkpoint exploration server; Python BFS over (model state, implementation hash)"},
             {"name": "TLC", "path": "tla/", "serves_properties": ["C04", "C05"],
              "kind_free_text": "TLA+ reference models; complete labelled state graph dumped and replayed against the implementation"},
